@@ -219,6 +219,38 @@ def replacements_with_warnings_as_errors(M, rec):
                 break
 
 
+def link_kinds_registered_late(M, rec):
+    """Scripted in every run: a duck-typed link class that is not a `Link` subclass - a path through one of its objects is
+    malformed (and rejected); once the class is declared a link (`Link.register`, the reaction to that very error) the same
+    path is well-formed and builds what it describes.  What an object is, is asked at each call (fresh class per run)."""
+    for via in ("same network", "another network"):
+        Duck = type("DuckLink", (), {"__init__": lambda self, name: setattr(self, "name", name)})
+        a, b, c = M.Node(name="A"), M.Node(name="B"), M.Node(name="C")
+        d1, d2 = Duck("d1"), Duck("d2")
+        net = M.Network()
+        before = netmon.graph_state(net)
+        rec.count("path_calls")
+        try:
+            net.add_path((a, d1, b))
+            rec.violation(f"{PROP}:add_path: malformed path accepted without error (an object of a class that is not a link kind at a link position)", {"via": via})
+        except Exception:
+            rec.count("malformed_paths_rejected")
+        M.Link.register(Duck)
+        net2 = net if via == "same network" else M.Network()
+        st = netmon.graph_state(net2)
+        rec.count("path_calls")
+        try:
+            net2.add_path((a, d1, b, d2, c), destination=M.Destination())
+        except Exception as e:
+            rec.violation(f"{PROP}:add_path: well-formed path rejected with {type(e).__name__} (its links are of a kind declared a link with Link.register after an earlier, rejected call)",
+                          {"via": via, "exception": repr(e)[:200]})
+            continue
+        rec.count("wellformed_paths_checked")
+        edges = {(id(u_), id(w_)): id(d_.get("link")) for u_, nb_ in X.raw_graph(net2)._succ.items() for w_, d_ in nb_.items()}
+        if edges.get((id(a), id(b))) != id(d1) or edges.get((id(b), id(c))) != id(d2):
+            rec.violation(f"{PROP}:add_path: a path through links of a late-registered kind did not build the described edges", {"via": via})
+
+
 def histories(M, rec, rng, reps):
     for _ in range(reps):
         N = [M.Node() for _ in range(rng.randint(2, 5))]
@@ -443,6 +475,7 @@ def run(M, rec, tier, seed, k, n):
     names_in_place_of_nodes(M, rec)
     value_equal_replacements(M, rec)
     replacements_with_warnings_as_errors(M, rec)
+    link_kinds_registered_late(M, rec)
     path_shapes(M, rec, rng, maxlen, k, n)
     histories(M, rec, rng, 600 if tier == "quick" else 12000)
     if k == 0:
